@@ -70,8 +70,14 @@ def where(c, a, b):
     return ite(c, a, b)
 
 
-def sum(x, axis=None, **kw):  # noqa: A001
+def sum(x, axis=None, where=None, **kw):  # noqa: A001
     Assumed.note("jnp.sum reduces by addition")
+    unknown = [k for k in kw if k not in ("dtype", "keepdims", "initial") or kw[k] not in (None, False, 0)]
+    if unknown:
+        raise EngineLimit("jnp.sum with %s" % ", ".join(unknown))  # never ignore an argument that changes the meaning
+    if where is not None:
+        Assumed.note("jnp.sum(x, where=m) adds the elements of x where m holds (the others count as 0)")
+        x = _masked(where, x)
     if isinstance(x, Sym):
         return x
     if isinstance(x, (int, float)):
@@ -81,6 +87,11 @@ def sum(x, axis=None, **kw):  # noqa: A001
     if isinstance(x, dict):
         raise documented(TypeError("sum requires ndarray or scalar arguments, got %s" % type(x)))
     raise EngineLimit("jnp.sum(%r)" % type(x))
+
+
+def _masked(mask, x):
+    """x where mask else 0 (element-wise)"""
+    return where(mask, x, zeros_like(x))
 
 
 def any(x, axis=None):  # noqa: A001
@@ -158,6 +169,9 @@ def add(a, b):
 
 def arange(*a, **k):
     from ..tensor import Tensor, _dim
+
+    if [x for x in k if x != "dtype"]:
+        raise EngineLimit("jnp.arange with %s" % ", ".join(k))
 
     Assumed.note("jnp.arange(n) = [0, 1, ..., n-1]; arange(a, b, s) = a + s*k for 0 <= k < ceil((b-a)/s)")
     if len(a) == 1:
@@ -491,6 +505,8 @@ _FillV = {}
 
 
 def take(x, indices, axis=None, mode=None, **kw):
+    if kw:
+        raise EngineLimit("jnp.take with %s" % ", ".join(kw))  # never ignore an argument that changes the meaning
     """jnp.take(x, indices, axis=0): gather along the leading axis.  DOCUMENTED difference to x[indices]: the default
     mode is "fill" - an out-of-range index yields NaN / the minimum integer instead of being clamped"""
     Assumed.note("jnp.take(x, idx, axis=0) = x[idx] for 0 <= idx < n; with the default mode='fill' an out-of-range index yields a fill value (NaN), with mode='clip' the index is clamped")
